@@ -151,7 +151,6 @@ impl Iterator for ReluctantFixedIterator<'_> {
         }
 
         if self.count < self.max {
-            self.matcher.clear_captured_groups_beyond(self.position);
             let mut it = self.op.matches_iter(self.matcher, self.pos);
             if let Some(next) = it.next() {
                 self.pos = next;
